@@ -265,4 +265,53 @@ example : hookValue { name := "w" } "before_stop" "raise" = true ∧ hookValue {
   constructor <;> decide +kernel
 example : hookOutcome { outs := ["true", "false", "raise"], ignore := false } 4 = "false" := by decide +kernel
 
+/-! ### hooks installed at run time: `set <w> hooks.<name> = "dotted.name[,flag]"` -/
+
+/-- **the ignore-failure flag of a hook installed with `set` is the flag of that request** — whatever was installed under the
+    name before, with or without the flag (for the names that are not ignored by default).  Before fix 512dcc9 the flag of a
+    replaced hook stuck for ever (F32). -/
+theorem C14_set_hook_flag_is_the_requests (w : Watcher) (h : String) (outs : List String) (ig : Bool)
+    (hd : defaultIgnoreFail.contains h = false) :
+    (applyOpt (.hook h outs ig) w).ignoreFail.contains h = ig := by
+  cases ig with
+  | true =>
+    simp only [applyOpt]
+    by_cases hc : h ∈ w.ignoreFail
+    · simp [hc]
+    · simp [hc]
+  | false =>
+    simp only [applyOpt, hd]
+    simp
+
+/-- … the flags of all other hooks are left alone … -/
+theorem C14_set_hook_leaves_other_flags (w : Watcher) (h h2 : String) (outs : List String) (ig : Bool) (hne : h2 ≠ h) :
+    (applyOpt (.hook h outs ig) w).ignoreFail.contains h2 = w.ignoreFail.contains h2 := by
+  simp only [applyOpt]
+  split
+  · split
+    · rfl
+    · simp [List.contains_eq_mem, List.mem_append, hne]
+  · split
+    · rfl
+    · simp only [List.contains_eq_mem, List.mem_filter]
+      simp [hne]
+
+/-- … a name that is ignored by default stays ignored (`before_stop`, `after_stop`, `before_signal`, `after_signal`:
+    "before_stop and after_stop outcomes never prevent a stop") … -/
+theorem C14_set_hook_keeps_default_ignored (w : Watcher) (h : String) (outs : List String) (ig : Bool)
+    (hd : defaultIgnoreFail.contains h = true) (hw : w.ignoreFail.contains h = true) :
+    (applyOpt (.hook h outs ig) w).ignoreFail.contains h = true := by
+  have hd' : h ∈ defaultIgnoreFail := by simpa [List.contains_eq_mem] using hd
+  have hw' : h ∈ w.ignoreFail := by simpa [List.contains_eq_mem] using hw
+  cases ig <;> simp [applyOpt, hd', hw']
+
+/-- … and the hook that runs from now on is the one of the request: its scripted outcomes are looked up first. -/
+theorem C14_set_hook_installs (w : Watcher) (h : String) (outs : List String) (ig : Bool) :
+    (applyOpt (.hook h outs ig) w).hooks.lookup h = some { outs := outs, ignore := ig } := by
+  simp [applyOpt, List.lookup]
+
+-- F32 (repaired): a hook installed with the flag, then replaced without it: the new hook's exception counts as false again
+example : ((applyOpt (.hook "before_start" ["raise"] false) (applyOpt (.hook "before_start" ["raise"] true) { name := "w" })).ignoreFail.contains
+    "before_start") = false := by decide +kernel
+
 end Circus.Core
